@@ -29,7 +29,7 @@ type c20Case struct {
 }
 
 var c20Steps = []string{"login-ok", "login-bad", "visit-full", "visit-none", "logout", "recover", "register", "otp-login", "remember", "otp-add", "login-ok",
-	"recover-bad", "confirm-bad", "login-unknown", "get-pages", "register-dup", "recover-unknown", "recover-refused", "odd-methods", "totp-qr", "sms-login", "totp-login", "totp-login"}
+	"recover-bad", "confirm-bad", "login-unknown", "get-pages", "register-dup", "recover-unknown", "recover-refused", "odd-methods", "totp-qr", "sms-login", "totp-login", "totp-login", "oauth", "oauth"}
 
 type c20Client struct {
 	w    *harness.World
@@ -214,6 +214,15 @@ func (c *c20Client) run(script []string) {
 			c.out = append(c.out, fmt.Sprintf("%s.code: got=%v", name, code != ""))
 			c.do(name+".code", "POST", P("/2fa/sms/validate"), map[string]string{"code": code}, nil)
 			c.do(name+".out", "DELETE", P("/logout"), nil, nil)
+		case "oauth":
+			// sign in through the provider: start, then the provider's callback with this client's own code
+			w.Jars[c.i].ClearSession()
+			c.do(name+".start", "GET", P("/oauth2/goog"), nil, nil)
+			state := w.Jars[c.i].SessionCopy()["oauth2_state"]
+			c.out = append(c.out, fmt.Sprintf("%s.state: got=%v", name, state != ""))
+			c.do(name+".cb", "GET", P("/oauth2/callback/goog"), nil, url.Values{"state": {state}, "code": {fmt.Sprintf("code-c%d", c.i)}})
+			c.do(name+".visit", "GET", "/p/none", nil, nil)
+			c.do(name+".out", "DELETE", P("/logout"), nil, nil)
 		case "totp-login":
 			// the client's fourth account has TOTP 2FA: password step, a wrong code, the current code, then the same code
 			// again on a second login (refused as used when replay protection is on) - refusals for different reasons
@@ -323,6 +332,10 @@ func c20World(c c20Case, perturb bool) (*harness.World, error) {
 func c20Clients(w *harness.World, k int) []*c20Client {
 	var cs []*c20Client
 	for i := 0; i < k; i++ {
+		// each client's own identity at the OAuth2 provider
+		w.RegisterCode(fmt.Sprintf("code-c%d", i), harness.OAuthIdentity{UID: fmt.Sprintf("c%d", i), Email: fmt.Sprintf("c%d@prov.io", i)})
+	}
+	for i := 0; i < k; i++ {
 		cs = append(cs, &c20Client{w: w, i: i, pid: w.Cfg.Accounts[i].PID, pw: w.Cfg.Accounts[i].Password, otps: append([]string(nil), w.Seeded[i].OTPs...)})
 	}
 	return cs
@@ -393,7 +406,7 @@ func c20Run(c c20Case) (*Violation, map[string]bool) {
 func c20Gen(t *rapid.T) c20Case {
 	var c c20Case
 	k := rapid.IntRange(2, 8).Draw(t, "clients")
-	c.Cfg = harness.Config{Seed: rapid.Uint64Range(1, 1<<32).Draw(t, "seed"), Modules: []string{"auth", "confirm", "lock", "logout", "otp", "recover", "register", "remember"},
+	c.Cfg = harness.Config{Seed: rapid.Uint64Range(1, 1<<32).Draw(t, "seed"), Modules: []string{"auth", "confirm", "lock", "logout", "otp", "recover", "register", "remember", "oauth2"}, Providers: []string{"goog"}, ProviderParams: true,
 		Setups: []string{"expire", "totp", "sms", "recovery"}, Mount: pick(t, "mount", "/auth", ""), JSON: chance(t, "json", 50), Browsers: k, Middleware: "remember",
 		LockAfter: 4, LockWindowS: 300, LockDurS: 600, RecoverLogin: chance(t, "reclogin", 50), MailGo: chance(t, "mailgo", 60),
 		Mailer: pick(t, "mailer", "", "log", "smtp", "smtp"), ShippedLog: chance(t, "shippedlog", 70), ModuleList: chance(t, "modlist", 50), Err500: chance(t, "err500", 50), Refusal: 1}
